@@ -153,7 +153,7 @@ func run(t *vk.T) {
 	}
 	r.mat = loadMaterial(t)
 
-	nCases := t.Pick(4000, 100000)
+	nCases := t.Pick(4000, 60000)
 	if s := os.Getenv("C08_CASES"); s != "" { // development aid; evidence records the real count
 		if v, err := strconv.Atoi(s); err == nil && v > 0 {
 			nCases = v
